@@ -324,6 +324,35 @@ Theorem C17_registered_call_follows_view : forall (R : rules) (H : hcfg) (c : cf
 Proof. exact registered_call_follows_view. Qed.
 Print Assumptions C17_registered_call_follows_view.
 
+(* the METADATA of the dispatch closure (__wrapped__, and with it __name__, __doc__, the signature): made once, by the
+   thread that ran use_dynamic_dispatch, from ITS backend of that moment (at import: the default).  It does not follow the
+   backend: in any history without use_dynamic_dispatch, whatever anybody selects, following __wrapped__ from any thread
+   reaches the made-with backend; the import-time bindings keep theirs for ever; use_dynamic_dispatch by thread u re-makes
+   the class closures with u's backend - while the CALL through the same closure follows the caller's view *)
+Theorem C17_closure_metadata_static : forall (R : rules) (c : cfg) (x : wst) (h1 : list wop) (t : tid) (top : bool) (h2 : list wop),
+  no_wdynamic h1 ->
+  nth (length h1) (wtrace R c x (h1 ++ WUnwrap t top :: h2)) WNone = WRan (if top then w_top x else w_cls x).
+Proof. exact unwrap_static. Qed.
+Print Assumptions C17_closure_metadata_static.
+
+Theorem C17_closure_metadata_top_static : forall (R : rules) (c : cfg) (x : wst) (h1 : list wop) (t : tid) (h2 : list wop),
+  nth (length h1) (wtrace R c x (h1 ++ WUnwrap t true :: h2)) WNone = WRan (w_top x).
+Proof. exact unwrap_top_static. Qed.
+Print Assumptions C17_closure_metadata_top_static.
+
+Theorem C17_closure_metadata_remade : forall (R : rules) (c : cfg) (x : wst) (u : tid) (h : list wop) (t : tid) (h2 : list wop),
+  no_wdynamic h ->
+  nth (S (length h)) (wtrace R c x (WDynamic u :: h ++ WUnwrap t false :: h2)) WNone = WRan (cur (w_sel x) u).
+Proof. exact dynamic_remakes. Qed.
+Print Assumptions C17_closure_metadata_remade.
+
+Theorem C17_closure_call_follows_view : forall (R : rules) (c : cfg) (x : wst) (h1 : list wop) (t : tid) (top : bool) (h2 : list wop),
+  nth (length h1) (wtrace R c x (h1 ++ WCall t top :: h2)) WNone
+  = WRan (view (tls (w_sel x) t) (shared (w_sel x))
+               (events R c (w_sel x) (flat_map (fun o => match o with WSel o => [o] | _ => [] end) h1)) t).
+Proof. exact wcall_follows_view. Qed.
+Print Assumptions C17_closure_call_follows_view.
+
 (* the other clauses seen through dispatched CALLS: isolation (whatever the other threads do thread-locally - sets,
    contexts, captures, calls, use_dynamic_dispatch - a function called by t through any route runs on the same object
    as before) and restore (after Enter ... Exit around any properly nested history, normal or exceptional exit, a
@@ -766,4 +795,15 @@ Example C17_registered_nonvacuous :
      RCall 2 8; RSel (Set_ 3 (SInst (Obj 2)) true); RCall 3 7]
   = [RSelObs ODone; RRan (Some (Obj 0, 0)); RNone; RRan (Some (Obj 0, 1)); RRan (Some (Named 0, 1)); RNone;
      RRan (Some (Obj 0, 2)); RRan (Some (Named 0, 1)); RRan (Some (Obj 0, 0)); RSelObs ODone; RRan None].
+Proof. vm_compute. reflexivity. Qed.
+
+(* non-vacuity of the C17_closure_metadata_... theorems: the call follows thread 1's selection, __wrapped__ does not; after
+   use_dynamic_dispatch by thread 1 the class closure is re-made with Obj 0, the import-time binding and the reference
+   captured before are not *)
+Example C17_closure_metadata_nonvacuous :
+  wtrace fixed_rules cfg0 (winit (fun _ => None))
+    [WCapture 2 false; WSel (Set_ 1 (SInst (Obj 0)) true); WCall 1 false; WUnwrap 1 false; WUnwrap 1 true; WDynamic 1;
+     WUnwrap 2 false; WUnwrap 2 true; WUnwrapCap 2 0; WCall 2 true]
+  = [WNone; WSelObs ODone; WRan (Obj 0); WRan (Named 0); WRan (Named 0); WNone; WRan (Obj 0); WRan (Named 0); WRan (Named 0);
+     WRan (Named 0)].
 Proof. vm_compute. reflexivity. Qed.
